@@ -54,6 +54,59 @@ func (p *Prog) ShadowedResults(prefixes ...string) []Shadowed {
 				if fscope == nil {
 					continue
 				}
+				// blocks that are bodies of helpers inlined by the normalisation (core/normalize.go): their variables
+				// were declared in another function, so the same name inside and outside is no shadowing in the source
+				var inlined []*ast.BlockStmt
+				ast.Inspect(fd.Body, func(n ast.Node) bool {
+					var list []ast.Stmt
+					switch x := n.(type) {
+					case *ast.BlockStmt:
+						list = x.List
+					case *ast.CaseClause:
+						list = x.Body
+					case *ast.CommClause:
+						list = x.Body
+					}
+					for i, st := range list {
+						b, ok := st.(*ast.BlockStmt)
+						if !ok {
+							continue
+						}
+						mark := false
+						if i > 0 {
+							if ds, ok := list[i-1].(*ast.DeclStmt); ok {
+								if gd, ok := ds.Decl.(*ast.GenDecl); ok && len(gd.Specs) > 0 {
+									if vs, ok := gd.Specs[0].(*ast.ValueSpec); ok && len(vs.Names) > 0 && strings.HasPrefix(vs.Names[0].Name, "__vn") {
+										mark = true
+									}
+								}
+							}
+						}
+						if i+1 < len(list) {
+							if ls, ok := list[i+1].(*ast.LabeledStmt); ok && strings.HasPrefix(ls.Label.Name, "__vn") {
+								mark = true
+							}
+						}
+						for _, inner := range b.List {
+							if ls, ok := inner.(*ast.LabeledStmt); ok && strings.HasPrefix(ls.Label.Name, "__vn") {
+								mark = true
+							}
+						}
+						if mark {
+							inlined = append(inlined, b)
+						}
+					}
+					return true
+				})
+				inlinedAt := func(pos token.Pos) *ast.BlockStmt {
+					var best *ast.BlockStmt
+					for _, b := range inlined {
+						if b.Pos() <= pos && pos <= b.End() && (best == nil || b.Pos() >= best.Pos()) {
+							best = b
+						}
+					}
+					return best
+				}
 				// uses of each object, by position
 				uses := map[types.Object][]token.Pos{}
 				ast.Inspect(fd.Body, func(n ast.Node) bool {
@@ -97,6 +150,9 @@ func (p *Prog) ShadowedResults(prefixes ...string) []Shadowed {
 							continue
 						}
 						if _, isVar := outer.(*types.Var); !isVar {
+							continue
+						}
+						if inlinedAt(inner.Pos()) != inlinedAt(outer.Pos()) || strings.HasPrefix(id.Name, "__vn") {
 							continue
 						}
 						// is the hidden variable read after the inner scope ends?
